@@ -85,6 +85,9 @@ type lEdge struct {
 	Post lPost   `json:"post"`
 }
 
+// the namespace of the lifecycle DIDs has three segments (did : method : network)
+const lifeNS = "did:sidetree:test"
+
 type lifeEnv struct {
 	pool     *KeyPool
 	ukt, rkt string
@@ -113,7 +116,9 @@ func (e *lifeEnv) key(id int, role string) *Key {
 		kt = e.rkt
 	}
 
-	return e.pool.Get(kt, fmt.Sprintf("life%d", id))
+	// (the keys of a lifecycle have a coordinate that starts with a zero byte: builders, parser and applier must
+	// agree on the fixed-width encoding wherever a key is signed with, revealed or committed to)
+	return e.pool.Get(kt, fmt.Sprintf("rare:life%d", id))
 }
 
 func (e *lifeEnv) commit(id int, role string) string {
@@ -448,7 +453,7 @@ func (e *lifeEnv) build(st *lStep, t int, did string, pre *lifeState) []built {
 	}
 
 	sc := sidetree.New(sidetree.WithSidetreeOperationRequestFnc(capture))
-	suffix := did[len("did:sidetree:"):]
+	suffix := did[len(lifeNS+":"):]
 
 	var l1, l2 built
 
@@ -721,7 +726,7 @@ func (e *lifeEnv) step(pre *lifeState, st *lStep, t int, want *lPost) lifeOutcom
 
 	did := pre.did
 	if st.Op == "create" {
-		did = "did:sidetree:pending"
+		did = lifeNS + ":pending"
 	}
 
 	var builts []built
@@ -757,15 +762,21 @@ func (e *lifeEnv) step(pre *lifeState, st *lStep, t int, want *lPost) lifeOutcom
 		}
 
 		// 1. accepted by a parser configured with the matching protocol
-		mop, perr := e.parser.ParseOperation("did:sidetree", b.req, false)
+		mop, perr := e.parser.ParseOperation(lifeNS, b.req, false)
 		if perr != nil {
 			fail("request-rejected", b.level, perr.Error(), "accepted", "rejected", b.req)
 			continue
 		}
 
-		pop, perr2 := e.parser.Parse("did:sidetree", b.req)
+		pop, perr2 := e.parser.Parse(lifeNS, b.req)
 		if perr2 != nil || string(pop.Type) != st.Op {
 			fail("request-rejected", b.level, fmt.Sprint(perr2), st.Op, pop, b.req)
+			continue
+		}
+
+		// the request addresses the DID the caller named (its suffix is everything after the namespace)
+		if st.Op != "create" && mop.UniqueSuffix != did[len(lifeNS+":"):] {
+			fail("wrong-did", b.level, "the request is for another DID than the one asked for", did[len(lifeNS+":"):], mop.UniqueSuffix, b.req)
 			continue
 		}
 
@@ -846,7 +857,7 @@ func (e *lifeEnv) step(pre *lifeState, st *lStep, t int, want *lPost) lifeOutcom
 			nd := pre.did
 
 			if st.Op == "create" {
-				nd = "did:sidetree:" + mop.UniqueSuffix
+				nd = lifeNS + ":" + mop.UniqueSuffix
 			}
 
 			ns := &lifeState{rm: r1, did: nd, updAlg: pre.updAlg, recAlg: pre.recAlg}
